@@ -38,7 +38,8 @@ def cases(tier, seed):
     out = []
     # --- diagonal solver
     for spec in SPECTRA:
-        for rhs in ("dense", "csr", "csr-structural-zeros", "sympy", "dense-real"):
+        for rhs in ("dense", "csr", "csr-structural-zeros", "sympy", "dense-real", "dense-int", "dense-c64", "dense-fortran",
+                    "dense-readonly", "coo", "csc", "csr-int"):
             for idx in ((0, 1), (1, 0), (0, 0), (1, 1)):
                 if spec.startswith("near-deg") and (rhs == "sympy" or idx[0] != idx[1]):
                     continue  # floats only; across blocks a shared level is rejected
@@ -174,8 +175,23 @@ def run_diagonal(case):
     if case["rhs"] == "csr-structural-zeros":
         Y[0, :] = 0
         Y[:, -1] = 0
-    if case["rhs"].startswith("csr"):
+    if case["rhs"] in ("dense-int", "csr-int"):
+        Y = Y.real.copy()
+    if case["rhs"] == "csr-int":
+        Yin = sparse.csr_array(Y.astype(np.int64))
+    elif case["rhs"].startswith("csr"):
         Yin = sparse.csr_array(Y)
+    elif case["rhs"] in ("coo", "csc"):
+        Yin = getattr(sparse, case["rhs"] + "_array")(Y)
+    elif case["rhs"] == "dense-int":
+        Yin = Y.astype(np.int64)
+    elif case["rhs"] == "dense-c64":
+        Yin = Y.astype(np.complex64)
+    elif case["rhs"] == "dense-fortran":
+        Yin = np.asfortranarray(Y.copy())
+    elif case["rhs"] == "dense-readonly":
+        Yin = Y.copy()
+        Yin.flags.writeable = False
     elif sym:
         Yin = sympy.Matrix(Y.shape[0], Y.shape[1], lambda r, c: sympy.Integer(int(Y[r, c].real)) + sympy.I * sympy.Integer(int(Y[r, c].imag)))
     else:
@@ -183,6 +199,7 @@ def run_diagonal(case):
     V = []
     if solve(zero, (i, j)) is not zero:
         V.append("zero right-hand side does not give the zero sentinel")
+    keep = Yin.copy() if isinstance(Yin, np.ndarray) else None
     try:
         X = solve(Yin, (i, j))
     except ValueError as e:
@@ -199,10 +216,12 @@ def run_diagonal(case):
         Xd = np.asarray(X, dtype=complex)
     if not np.isfinite(Xd).all():
         V.append("solution has non-finite entries")
+    if keep is not None and not np.array_equal(keep, Yin):
+        V.append("the right-hand side array was modified")
     dE = EA.reshape(-1, 1) - EB.reshape(1, -1)
     res = EA.reshape(-1, 1) * Xd - Xd * EB.reshape(1, -1) - Y
     coincide = np.abs(dE) <= atol
-    if np.abs(res[~coincide]).max(initial=0) > 1e-9 * max(1, np.abs(Y).max()):
+    if np.abs(res[~coincide]).max(initial=0) > (1e-5 if case["rhs"] == "dense-c64" else 1e-9) * max(1, np.abs(Y).max()):
         V.append("E_i V - V E_j != Y where the energies differ")
     if np.abs(Xd[coincide]).max(initial=0) != 0:
         V.append("V is not zero where the energies coincide")
